@@ -433,7 +433,43 @@ func (g *Gen) Step() {
 			return
 		}
 		g.settle([]*Sub{s})
-		w.PullWait(s.Name, len(s.outstanding())+5)
+		if !strings.HasPrefix(g.P.Name, "lease") {
+			w.PullWait(s.Name, len(s.outstanding())+5)
+			break
+		}
+		// lease profiles: the long poll starts 2-9 s before the first running lease
+		// of the subscription ends, so it is the lapse that wakes it; afterwards a
+		// probe lands in the second half of the stretch by which a lease counted
+		// from the start of the call would be too short
+		var first time.Time
+		for _, d := range s.Dels {
+			if d.State == Out && !d.Wild && d.Lease.Lo.After(w.now()) && (first.IsZero() || d.Lease.Lo.Before(first)) {
+				first = d.Lease.Lo
+			}
+		}
+		if lead := time.Duration(2000+r.Intn(7000)) * time.Millisecond; !first.IsZero() && first.Sub(w.now()) > lead && first.Sub(w.now()) < time.Hour {
+			w.Jump(first.Sub(w.now()) - lead)
+		}
+		t0 := w.now()
+		rms := w.PullWait(s.Name, len(s.outstanding())+5)
+		waited := w.now().Sub(t0)
+		if len(rms) == 0 || waited < 100*time.Millisecond {
+			break
+		}
+		w.stat("waiting_pulls_woken_by_a_lapsing_lease", 1)
+		var next time.Time
+		for _, rm := range rms {
+			if d := w.ByAck[rm.AckId]; d != nil && d.State == Out && (next.IsZero() || d.Lease.Lo.Before(next)) {
+				next = d.Lease.Lo
+			}
+		}
+		if !next.IsZero() {
+			if j := next.Add(-waited / 2).Sub(w.now()); j > 0 && r.Intn(4) != 0 {
+				w.Jump(j)
+			}
+			w.Pull(s.Name, len(s.outstanding())+5)
+			w.stat("probes_inside_the_lease_of_a_woken_long_poll", 1)
+		}
 	case "pull-due":
 		// jump past every running lease of one subscription, then probe
 		if s == nil {
